@@ -19,6 +19,7 @@
 (*     header candidate without a body that ENCLOSES real headers)         *)
 (*   C control statement (variants if, loop, try)                          *)
 (*   E else / catch / except   A anonymous function                        *)
+(*   G bare block statement `{ .. }` (enabled by "G" in Allowed)            *)
 (*   X close of the innermost open construct                               *)
 (*   S n simple statements (calls; variants strdelim: string/char literals *)
 (*     containing braces, parentheses and comment leaders; trailing: a     *)
@@ -41,12 +42,12 @@
 (***************************************************************************)
 EXTENDS Naturals, Sequences, FiniteSets, TLC
 CONSTANTS MaxItems, MaxDepth, Reps, FVariants, SVariants, CVariants,
-          Allowed      \* item kinds this configuration may use (subset of {"F","K","C","E","A","X","S","M","B","R"})
+          Allowed      \* item kinds this configuration may use (subset of {"F","K","C","E","A","G","X","S","M","B","R"}, plus the switch "W")
 
 VARIABLES prog, stack, done, exp
 vars == <<prog, stack, done, exp>>
 
-Opens == {"F", "K", "C", "A"}
+Opens == {"F", "K", "C", "A", "G"}
 Top == IF stack = <<>> THEN "top" ELSE stack[Len(stack)]
 InFunc == \E i \in 1..Len(stack) : stack[i] = "F"
 Depth == Len(stack)
@@ -78,6 +79,10 @@ Control    == /\ "C" \in Allowed /\ Room /\ CanOpen /\ InFunc /\ Top # "K" /\ \E
               /\ stack' = Append(stack, "C") /\ UNCHANGED <<done, exp>>
 Anonymous  == /\ "A" \in Allowed /\ Room /\ CanOpen /\ InFunc /\ Top # "K" /\ Emit(Item("A", "plain", 1))
               /\ stack' = Append(stack, "A") /\ UNCHANGED <<done, exp>>
+(* a bare block statement `{ .. }` (an instance initialiser at class level in Java): no function, its lines belong *)
+(* to the enclosing function if there is one; it may stand directly behind a function's closing brace          *)
+Bare       == /\ "G" \in Allowed /\ Room /\ CanOpen /\ Emit(Item("G", "plain", 1))
+              /\ stack' = Append(stack, "G") /\ UNCHANGED <<done, exp>>
 Else       == /\ "E" \in Allowed /\ Room /\ Top = "C" /\ HasCodeSinceOpen(Len(prog)) /\ prog[OpenItem].v # "loop"
               /\ Emit(Item("E", prog[OpenItem].v, 1))
               /\ stack' = [stack EXCEPT ![Len(stack)] = "E"] /\ UNCHANGED <<done, exp>>
@@ -135,7 +140,7 @@ Expected(fam) == [ f \in Funcs |-> [ start |-> FirstLine(fam, f),
                                     parent |-> Encl(f) ] ]
 Finish == /\ stack = <<>> /\ prog # <<>> /\ ~done /\ done' = TRUE
           /\ exp' = [fam \in Families |-> Expected(fam)] /\ UNCHANGED <<prog, stack>>
-Next == ~done /\ (FuncHeader \/ Class \/ Control \/ Anonymous \/ Else \/ Close \/ Stmt \/ MultiLineStmt \/ Blank \/ Comment \/ Finish)
+Next == ~done /\ (FuncHeader \/ Class \/ Control \/ Anonymous \/ Bare \/ Else \/ Close \/ Stmt \/ MultiLineStmt \/ Blank \/ Comment \/ Finish)
 Init == prog = <<>> /\ stack = <<>> /\ done = FALSE /\ exp = <<>>
 Spec == Init /\ [][Next]_vars
 
